@@ -16,7 +16,7 @@ Lemma separator_checked_everywhere : forall k sep rows keys text K,
   validate_separator sep = false ->
   csv_save k sep rows = Err InvalidOptions /\ csv_load sep keys text = Err InvalidOptions /\
   csv_load_stream K sep keys text = Err InvalidOptions.
-Proof. intros. unfold csv_save, csv_load, csv_load_stream. rewrite H. auto. Qed.
+Proof. intros. unfold csv_save, csv_load, csv_load_stream, csv_load_src. rewrite H. auto. Qed.
 
 (* ---------- writer ---------- *)
 
@@ -50,7 +50,7 @@ Lemma writer_norows : forall sep hdr keys, allowed sep ->
   csv_write sep hdr [] = Ok [] /\ csv_load sep keys [] = Err ParsingError /\
   (forall K, (0 < K)%nat -> csv_load_stream K sep keys [] = Err ParsingError).
 Proof.
-  intros sep hdr keys A. unfold csv_write, csv_save, csv_load, csv_load_stream.
+  intros sep hdr keys A. unfold csv_write, csv_save, csv_load, csv_load_stream, csv_load_src.
   rewrite (allowed_validate sep A). cbn [negb map save_rows writer_new string_writer_new w_out].
   split; [reflexivity|]. split; [reflexivity|]. intros K HK. destruct K as [|K]; [lia|]. reflexivity.
 Qed.
